@@ -1,4 +1,5 @@
 """C14 - must-link / cannot-link constraints: index spaces, sign and rows, validation wiring."""
+from ..astutil import clone as _clone
 import ast
 
 from ..pm import AnalysisError, norm_src, func_params
@@ -72,6 +73,9 @@ def run(pm, ctx):
     X_, yp, gr = func_params(ig)
     loops = [n for n in ig.body if isinstance(n, ast.For)]
     site0 = "intercept_grads"
+    # the list of sample ids of the current batch: the local bound to <model>._batchify.indices
+    COLL = next((norm_src(s_.targets[0]) for s_ in ig.body if isinstance(s_, ast.Assign) and isinstance(s_.targets[0], ast.Name)
+                 and norm_src(s_.value).endswith("._batchify.indices")), None)
     kinds = {}
     for lp in loops:
         which = norm_src(lp.iter)
@@ -89,7 +93,7 @@ def run(pm, ctx):
             ctx.unrecognised("C14-b", site, "the pair is not unpacked into two sample ids")
             continue
         a, b = tg
-        gstat, body, gwhy = _pair_guard(lp, a, b)
+        gstat, body, gwhy = _pair_guard(lp, a, b, COLL or "last_indices")
         if gstat == "unrecognised":
             ctx.unrecognised("C14-b", site, gwhy)
             continue
@@ -97,11 +101,11 @@ def run(pm, ctx):
             probs.append(gwhy)
         idx = [s for s in body if isinstance(s, ast.Assign) and isinstance(s.targets[0], ast.Tuple)]
         rows = None
-        if idx and [norm_src(e) for e in idx[0].value.elts] == [f"last_indices.index({a})", f"last_indices.index({b})"]:
+        if idx and COLL and [norm_src(e) for e in idx[0].value.elts] == [f"{COLL}.index({a})", f"{COLL}.index({b})"]:
             rows = [norm_src(e) for e in idx[0].targets[0].elts]
         ups = [s for s in body if isinstance(s, ast.AugAssign)]
         if rows is None:
-            ctx.unrecognised("C14-b", site, "rows are not located with last_indices.index(sample)")
+            ctx.unrecognised("C14-b", site, "rows are not located with <recorded indices>.index(sample)")
             continue
         if rows and len(ups) == 2:
             r0, r1 = rows
@@ -135,7 +139,7 @@ def run(pm, ctx):
             ctx.ok("C14-b", site + ": no other row written")
     # last_indices is the list recorded by the batch wrapper
     src = [norm_src(s) for s in ig.body]
-    if "last_indices = gemini_model._batchify.indices" in src:
+    if COLL is not None and f"{COLL} = gemini_model._batchify.indices" in src:
         ctx.ok("C14-b", "intercept_grads: rows located in the indices recorded by the decorated _batchify")
     else:
         ctx.violation("C14-b", u.relpath, "add_mlcl_constraint.intercept_grads", "last_indices", "batch positions are not looked up in the recorded batch indices", line=ig.lineno,
@@ -218,8 +222,8 @@ def _same_modulo_strings(a, b, mapping):
 
         def visit_JoinedStr(self, n):
             return ast.copy_location(ast.Constant(value="S"), n)
-    a2 = ast.fix_missing_locations(Strip().visit(copy.deepcopy(a)))
-    b2 = ast.fix_missing_locations(Strip().visit(copy.deepcopy(b)))
+    a2 = ast.fix_missing_locations(Strip().visit(_clone(a)))
+    b2 = ast.fix_missing_locations(Strip().visit(_clone(b)))
     return mirror_equal(a2, b2, mapping)
 
 
@@ -251,7 +255,7 @@ def _membership(test, names, coll="last_indices"):
     return None
 
 
-def _pair_guard(lp, a, b):
+def _pair_guard(lp, a, b, coll="last_indices"):
     """the statements executed for a pair whose two samples are in the batch. -> (status, body, why)"""
     early = [n for n in ast.walk(lp) if isinstance(n, (ast.Break, ast.Return))]
     if early:
@@ -259,7 +263,7 @@ def _pair_guard(lp, a, b):
             f"`{norm_src(early[0])}` inside the loop over pairs: once one pair is not in the batch, all later pairs are skipped"
     first = lp.body[0]
     if isinstance(first, ast.If):
-        m = _membership(first.test, (a, b))
+        m = _membership(first.test, (a, b), coll)
         if m == "all_in" and len(lp.body) == 1 and not first.orelse:
             return "ok", first.body, ""
         if m == "some_out" and len(first.body) == 1 and isinstance(first.body[0], ast.Continue) and not first.orelse:
